@@ -1,7 +1,8 @@
 SPEC = {
-    "claimed": False,
+    "claimed": True,
     "gen": ["mapitems"],
     "theorems": ["C16_open_total", "C16_accessors_total", "C16_data_inside", "C16_wellformed",
+                 "C16_map_total", "C16_from_slice_rest_total",
                  "C16_fixed_unaligned_sizes", "C16_fixed_start_min", "C16_nonvacuous"],
     "allowed_axioms": [],
     "extract": {
@@ -14,6 +15,47 @@ SPEC = {
         "LibTw2.Gen.MapItems": ["MAP_ITEMTYPE_IMAGE", "size_of_Tile", "size_of_TeleTile", "size_of_SpeedupTile",
                                 "size_of_SwitchTile", "size_of_TuneTile"],
     },
-    "components": [{"bin": "datafile", "driver": "drv_datafile", "timeout": {"quick": 600, "thorough": 3000}}],
+    "components": [{"bin": "datafile", "driver": "drv_datafile", "timeout": {"quick": 900, "thorough": 3000}}],
     "release": False,
+    "rule": "see components.datafile.rule",
+    "trusted_base": [
+        "Model/Datafile.v is hand-written from datafile/src/raw.rs, format.rs, bitmagic.rs, common/src/slice.rs "
+        "(after the two fix: commits f7ac089, ccb8c9e); Model/MapReader.v from map/src/reader.rs and format.rs over the "
+        "translated table Gen/MapItems.v (tools/gen_mapitems.py: struct versions/offsets/field offsets, constants, tile sizes; "
+        "the translator also pins the text of MapItemExt::from_slice_rest)",
+        "the writer specification Datafile.serialize is a transcription of doc/datafile.md; the Rust harness carries a second, "
+        "independent transcription and the two are compared byte for byte on every generated item/data set",
+        "zlib (libz through libtw2-zlib-minimal) is a parameter `uncompress : capacity -> source -> ZOk bytes | ZErr code` of the model; "
+        "in the correspondence run it is instantiated by the graph the harness records by calling zlib directly",
+        "file I/O: the model reads a byte list (CallbackNew::read = min(wanted, remaining), like file.rs read_retry; seek_read inside "
+        "the bytes behind the seek base); datafile::Reader::open on a temp file is checked against raw::Reader::new on memory by the oracle",
+        "little-endian target (from_little_endian is the identity); usize is 64 bits",
+    ],
+    "assumptions": [
+        "input bytes are u8 (bytes_ok)",
+        "accessor arguments are the ones the API hands out: item / item type / data indices below the announced counts, u16 ids; "
+        "map group / layer / image indices from group_indices, a decoded group's layer range, the image item range "
+        "(Reader::item(i), read_data(i), map group(i)/layer(i) with foreign indices panic by design: slice index / assert on the type id)",
+        "C16_wellformed: type ids ascending in the file (the reader demands `type_id > previous`; doc/datafile.md only says unique -- "
+        "the reference writer emits ascending ids), u16 type ids and ids, i32 words, file and each data item below 2 GiB, "
+        "and for version 4 uncompress (len d) (compress d) = ZOk d",
+        "allocation of attacker-announced sizes (Vec::with_capacity up to 2 GiB) is outside the model; only the capacity-overflow panic is modelled",
+    ],
+    "explanation": "Theorems quantify over every byte string (open / accessors / data / map totality) and over every well-formed "
+                   "item/data set in both versions and both size conventions (round trip), proved by induction over the tables; "
+                   "panics are explicit outcomes of the model at every index, sub-slice, assert!, assert_* cast, unreachable!, unwrap "
+                   "and debug-overflow site. The model is tied to the code by running both on ~23k (quick) files: independent-writer "
+                   "files, every 32-bit field at every boundary value, every truncation, corrupt / oversized / undersized compressed "
+                   "blocks, consistent-but-odd structures, map-shaped files with every index/count/version field at its boundaries, "
+                   "random bytes; each through raw::Reader (memory), datafile::Reader::open (file) and every map accessor.",
+    "level_note": "Map layer: modelled and proved total -- MapItemExt::from_slice_rest (all 23 structs of the translated table), "
+                  "get_index/get_index_opt, Group/LayerTilemap(+ExtraRace)/LayerQuads/DdraceLayerSounds/Layer/Image/Info::from_raw, "
+                  "Reader::version/check_version/info/group_indices/group/layer/image/game_layers, string, image_name, settings + "
+                  "SettingsIter, image_data, the five *_layer_tiles_raw (length check, tile count) and *_layer_tiles (Array2 shape = "
+                  "height*width check). Covered by correspondence / oracle only: the byte reinterpretation of tile vectors "
+                  "(common::vec::transmute; only counts and shapes are compared), GameLayers' index helpers (game()/teleport()/.. are "
+                  "called under the panic guard), EnvpointExt::from_slice and the item kinds no Reader accessor decodes "
+                  "(MapItemVersionV1, MapItemImageV2, MapItemEnvelopeV1/V2/V1Legacy, MapItemEnvpointV1/V2, MapItemDdraceSoundV1, "
+                  "MapItemInfoV1ExtraRace: present in the translated table and covered by C16_from_slice_rest_total, but nothing in "
+                  "reader.rs reads them), debug_dump and the Debug impls.",
 }
